@@ -1117,10 +1117,11 @@ struct Out {
     clauses: Vec<serde_json::Value>,
     edits_log: Vec<serde_json::Value>,
     anchor_shifted: Vec<serde_json::Value>,
+    anchor_lost: Vec<serde_json::Value>,
 }
 impl Out {
     fn new() -> Out {
-        Out { text: String::new(), origins: vec![Origin::Gen], fn_ranges: vec![], clauses: vec![], edits_log: vec![], anchor_shifted: vec![] }
+        Out { text: String::new(), origins: vec![Origin::Gen], fn_ranges: vec![], clauses: vec![], edits_log: vec![], anchor_shifted: vec![], anchor_lost: vec![] }
     }
     fn cur_line(&self) -> usize {
         self.origins.len() // 1-based number of the line currently being written
@@ -1966,6 +1967,7 @@ fn main() {
     let mut mapp = PathBuf::from("/verif/build/map.json");
     let mut probes = false;
     let mut probe_prop: Option<String> = None;
+    let mut assume_fns: Vec<String> = vec![];
     let mut probe_shard: Option<(usize, usize)> = None;
     let mut facts_out: Option<PathBuf> = None;
     let mut i = 1;
@@ -2003,6 +2005,10 @@ fn main() {
                 probe_prop = Some(args[i + 1].clone());
                 i += 1;
             }
+            "--assume-fn" => {
+                assume_fns.push(args[i + 1].clone());
+                i += 1;
+            }
             a => {
                 eprintln!("unknown argument {a}");
                 std::process::exit(3);
@@ -2037,7 +2043,7 @@ fn main() {
             Err(e) => { eprintln!("vx-extract: UNDECIDED: {e}"); std::process::exit(2); }
         }
     }
-    match run(&repo, &verif, &outp, &mapp, probes, probe_prop, probe_shard) {
+    match run(&repo, &verif, &outp, &mapp, probes, probe_prop, probe_shard, &assume_fns) {
         Ok(()) => {}
         Err(e) => {
             eprintln!("vx-extract: UNDECIDED: {e}");
@@ -2046,7 +2052,7 @@ fn main() {
     }
 }
 
-fn run(repo: &Path, verif: &Path, outp: &Path, mapp: &Path, probes: bool, probe_prop: Option<String>, probe_shard: Option<(usize, usize)>) -> Result<(), String> {
+fn run(repo: &Path, verif: &Path, outp: &Path, mapp: &Path, probes: bool, probe_prop: Option<String>, probe_shard: Option<(usize, usize)>, assume_fns: &[String]) -> Result<(), String> {
     // crate-wide facts
     let mut facts = Facts::default();
     let mut all_src: Vec<String> = vec![];
@@ -2128,8 +2134,30 @@ fn run(repo: &Path, verif: &Path, outp: &Path, mapp: &Path, probes: bool, probe_
                         }
                         Directive::Fn(fs) => {
                             let s = cur.ok_or_else(|| format!("{name}: `fn` before `file`"))?;
-                            let mut ctx = EmitCtx { probe_shard, probe_prop: probe_prop.clone(), probes, probe_counter: &mut probe_counter, probe_list: &mut probe_list };
-                            emit_fn(s, &facts, fs, name, &mut out, &mut ctx)?;
+                            // A function whose body can no longer be brought into the verifier's subset (an anchor of its sidecar is
+                            // gone, or the driver found that Verus rejects its text: --assume-fn) is emitted as its CONTRACT ONLY
+                            // (external_body): its callers are still checked against the contract, the function itself is listed
+                            // under `anchor_lost` and every property it carries is undecided for this run.
+                            let forced = fs.mode == "verify" && assume_fns.iter().any(|k| *k == fs.key);
+                            let snap = (out.text.len(), out.origins.len(), out.fn_ranges.len(), out.clauses.len(), out.edits_log.len(), out.anchor_shifted.len());
+                            let (pc, pl) = (probe_counter, probe_list.len());
+                            let first = if forced { Err("the verifier rejects the function's text".to_string()) } else {
+                                let mut ctx = EmitCtx { probe_shard, probe_prop: probe_prop.clone(), probes, probe_counter: &mut probe_counter, probe_list: &mut probe_list };
+                                emit_fn(s, &facts, fs, name, &mut out, &mut ctx)
+                            };
+                            if let Err(e) = first {
+                                if fs.mode != "verify" { return Err(e); }
+                                out.text.truncate(snap.0); out.origins.truncate(snap.1); out.fn_ranges.truncate(snap.2); out.clauses.truncate(snap.3);
+                                out.edits_log.truncate(snap.4); out.anchor_shifted.truncate(snap.5);
+                                probe_counter = pc; probe_list.truncate(pl);
+                                let mut demoted = fs.clone();
+                                demoted.mode = "assume".to_string();
+                                demoted.at.clear();
+                                demoted.loops.clear();
+                                let mut ctx = EmitCtx { probe_shard, probe_prop: probe_prop.clone(), probes, probe_counter: &mut probe_counter, probe_list: &mut probe_list };
+                                emit_fn(s, &facts, &demoted, name, &mut out, &mut ctx)?;
+                                out.anchor_lost.push(json!({"fn": fs.key, "props": fs.props, "why": e}));
+                            }
                         }
                     }
                 }
@@ -2161,6 +2189,7 @@ fn run(repo: &Path, verif: &Path, outp: &Path, mapp: &Path, probes: bool, probe_
         "edits": out.edits_log,
         "probes": probe_list,
         "anchor_shifted": out.anchor_shifted,
+        "anchor_lost": out.anchor_lost,
         "units": units,
         "lines": origins,
         "facts": {
